@@ -4,6 +4,7 @@ _loader_cache / _call_cache dictionaries, FuncWrapper.set_func, the entry of a p
 sequence of decisions in the alphabet of spec/Conc.tla and survives refactoring of the code between them."""
 from __future__ import annotations
 
+import sys
 import threading
 from typing import Any, Callable, Optional
 
@@ -25,6 +26,7 @@ class Sched:
         self.timeout = timeout
         self.lock = threading.Lock()
         self.local = threading.local()
+        self.line_tracer = None               # set by make_line_tracer(): preemption at source lines of the library
 
     # ---- called from worker threads --------------------------------------------------------------
     def me(self) -> Optional[str]:
@@ -53,6 +55,23 @@ class Sched:
             if not self.sems[t].acquire(timeout=self.timeout):
                 raise Deadlock(f"{t} was never rescheduled")
 
+    def line_point(self) -> None:
+        """a preemption point that is not a shared-state operation (a source line of the library reached under sys.settrace):
+        counted as a step, not logged as an event"""
+        t = self.me()
+        if t is None or getattr(self.local, "atomic", 0):
+            return            # inside a shared-state operation (its __hash__ / __eq__ calls are library code too): one atomic step
+        k = self.step
+        self.step += 1
+        nxt = self.decisions.get(k)
+        if nxt is None or nxt == t or nxt not in self.alive:
+            return
+        self.trace.append((k, t, list(self.alive)))
+        self.current = nxt
+        self.sems[nxt].release()
+        if not self.sems[t].acquire(timeout=self.timeout):
+            raise Deadlock(f"{t} was never rescheduled")
+
     def _finish(self, t: str) -> None:
         self.alive.remove(t)
         if self.alive:
@@ -72,7 +91,12 @@ class Sched:
             self.local.name = n
             self.sems[n].acquire()
             try:
-                self.results[n] = ("ok", programs[n]())
+                if self.line_tracer is not None:
+                    sys.settrace(self.line_tracer)
+                try:
+                    self.results[n] = ("ok", programs[n]())
+                finally:
+                    sys.settrace(None)
             except BaseException as e:  # noqa: BLE001
                 self.results[n] = ("exc", e)
             finally:
@@ -91,6 +115,21 @@ class Sched:
                 raise Deadlock("a thread did not finish: all threads blocked or lost baton")
 
 
+def make_line_tracer(sched: Sched, path_part: str = "adaptix"):
+    """sys.settrace function: every executed line of a source file whose path contains path_part (incl. generated code) is a
+    preemption point of the scheduler"""
+    def local(frame, event, arg):
+        if event == "line":
+            sched.line_point()
+        return local
+
+    def tracer(frame, event, arg):
+        if event == "call" and path_part in frame.f_code.co_filename and "/vf/" not in frame.f_code.co_filename:
+            return local
+        return None
+    return tracer
+
+
 class SchedDict(dict):
     """a dict whose operations are yield points; remembers which thread stored each key"""
 
@@ -99,23 +138,41 @@ class SchedDict(dict):
         self._s, self._n, self._d = sched, name, describe
         self.creator: dict = {}
 
+    def _enter(self):
+        self._s.local.atomic = getattr(self._s.local, "atomic", 0) + 1
+
+    def _exit(self):
+        self._s.local.atomic -= 1
+
     def __contains__(self, key):
         self._s.yield_point(f"{self._n}_contains", **self._d(key))
-        hit = dict.__contains__(self, key)
-        self._s.log(f"{self._n}_contains_result", hit=hit, creator=self.creator.get(key) if hit else None, **self._d(key))
+        self._enter()
+        try:
+            hit = dict.__contains__(self, key)
+            self._s.log(f"{self._n}_contains_result", hit=hit, creator=self.creator.get(key) if hit else None, **self._d(key))
+        finally:
+            self._exit()
         return hit
 
     def __getitem__(self, key):
         self._s.yield_point(f"{self._n}_get", **self._d(key))
+        self._enter()
         try:
-            v = dict.__getitem__(self, key)
-        except KeyError:
-            self._s.log(f"{self._n}_get_result", hit=False, **self._d(key))
-            raise
-        self._s.log(f"{self._n}_get_result", hit=True, creator=self.creator.get(key), **self._d(key))
+            try:
+                v = dict.__getitem__(self, key)
+            except KeyError:
+                self._s.log(f"{self._n}_get_result", hit=False, **self._d(key))
+                raise
+            self._s.log(f"{self._n}_get_result", hit=True, creator=self.creator.get(key), **self._d(key))
+        finally:
+            self._exit()
         return v
 
     def __setitem__(self, key, value):
         self._s.yield_point(f"{self._n}_set", **self._d(key))
-        dict.__setitem__(self, key, value)
-        self.creator[key] = self._s.me()
+        self._enter()
+        try:
+            dict.__setitem__(self, key, value)
+            self.creator[key] = self._s.me()
+        finally:
+            self._exit()
